@@ -14,11 +14,13 @@ ASSUME = ["one outstanding wait per timer, no second connect while one is pendin
           "a refused connect parked in the 50 ms connect timer counts as already completed: close/cancel/destroy deliver connection_refused, once"]
 
 def idle_sets(lines):
-    """(kind, k) -> socket objects with no operation outstanding at that boundary, read off the
-    model's prediction of the base scenario (`marks on`): an operation is outstanding from the
-    call that names its handler until that handler is invoked; the peer of an accept counts as
-    busy; self-perpetuating loops keep their socket busy for good"""
+    """(kind, k) -> (socket objects with no operation outstanding at that boundary, objects with one,
+    peer sockets of an accept / accept_ep that is still pending), read off the model's prediction of
+    the base scenario (`marks on`): an operation is outstanding from the call that names its handler
+    until that handler is invoked; the peer of an accept counts as busy - and must stay alive - exactly
+    until the accept's handler ran; self-perpetuating loops keep their socket busy for good"""
     out = {}; busy = {}   # obj -> set of handler tokens
+    pend = {}             # accept handler -> its peer socket
     for l in lines:
         tk = l.split()
         if not tk: continue
@@ -29,13 +31,14 @@ def idle_sets(lines):
             hs = [t for t in op[1:] if re.match(r"h\d+$", t)]
             for h in hs: busy.setdefault(obj, set()).add(h)
             if m in ("accept", "accept_ep") and len(op) > 1:
-                for h in hs: busy.setdefault(op[1], set()).add(h)
+                for h in hs: busy.setdefault(op[1], set()).add(h); pend[h] = op[1]
             if m in ("read_loop", "write_loop"): busy.setdefault(obj, set()).add("loop")
             if m == "destroy": busy.setdefault(obj, set()).add("gone")
         elif tk[0] == "H":
             for o in busy: busy[o].discard(tk[1])
+            pend.pop(tk[1], None)
         elif tk[0] == "M" and len(tk) > 1:
-            out[(tk[1][0], int(tk[1][1:]))] = (set(o for o in busy if not busy[o]), set(o for o in busy if busy[o]))
+            out[(tk[1][0], int(tk[1][1:]))] = (set(o for o in busy if not busy[o]), set(o for o in busy if busy[o]), set(pend.values()))
     return out
 
 def boundaries(bases, wd):
